@@ -331,3 +331,19 @@ func verifC12g() { // decorator in the root, decorator and (exported) constructo
 }
 
 func init() { verifEntries["verifC12g"] = verifC12g }
+
+func verifC10f() { // a feeder with a second (single) result that a decorator of the feeder's dependency needs
+	verifRunProfile(&vProfile{name: "C10f", clauses: vC10,
+		maxScopes: 1, nRegs: 3, maxParams: 1, maxResults: 2, pForms: 2, rForms: 2, names: 1, groups: true, decorators: 1, decor2: true, objOnly: true,
+		regKinds: []int{vCtor, vCtor, vDecor}, regParams: []int{0, 1}, regResults: []int{1, 2}, faults: 1, nInvokes: 1, invParams: 1})
+}
+
+func init() { verifEntries["verifC10f"] = verifC10f }
+
+func verifC05sg() { // four constructors; a scope created after the parent's graph holds three nodes
+	verifRunProfile(&vProfile{name: "C05sg", clauses: vC05s,
+		maxScopes: 2, nRegs: 4, maxParams: 1, maxResults: 1, pForms: 2, rForms: 1, names: 1, groups: true, objOnly: true,
+		regParams: []int{1, 0, 1, 1}, faults: 1, nInvokes: 1, invParams: 0, distinct: true})
+}
+
+func init() { verifEntries["verifC05sg"] = verifC05sg }
